@@ -766,6 +766,11 @@ func (p *Parser) parseInsertStmt() ast.Statement {
 		if !p.expectPeek(token.END) {
 			return nil
 		}
+
+		// the block itself may have brought an insert with the same name
+		if hasDuplicates := p.checkDuplicateInserts(stmt); hasDuplicates {
+			return nil
+		}
 	}
 
 	p.inserts[stmt.Name.Value] = stmt
